@@ -57,16 +57,28 @@ theorem hessPlace_eq' {d : Nat} (D off : Nat) (Hi : Mat α d (d * d)) (R : Fin D
     rw [getN_eq' _ _ _ h1 h2]
   · rfl
 
-theorem selH_prod_entry (inv : Bool) (A B : LieModel α) (v : Vec α (A.dof + B.dof)) (R : Fin (A.dof + B.dof))
+theorem selH_prod_entry (hz : ZeroLaws α) (inv : Bool) (A B : LieModel α) (v : Vec α (A.dof + B.dof)) (R : Fin (A.dof + B.dof))
     (C : Fin ((A.dof + B.dof) * (A.dof + B.dof))) :
     selH inv (Bundle.prod A B) v R C
       = Bundle.hessPlace (A.dof + B.dof) 0 (selH inv A (Bundle.fst v)) R C
         + Bundle.hessPlace (A.dof + B.dof) A.dof (selH inv B (Bundle.snd v)) R C := by
+  -- the model takes ONE of the two placements according to the row (bundle.hpp writes blocks into a zeroed matrix);
+  -- with the zero laws that is their sum
+  have key : ∀ (HA : Mat α A.dof (A.dof * A.dof)) (HB : Mat α B.dof (B.dof * B.dof)),
+      (if R.val < A.dof then Bundle.hessPlace (A.dof + B.dof) 0 HA R C else Bundle.hessPlace (A.dof + B.dof) A.dof HB R C)
+        = Bundle.hessPlace (A.dof + B.dof) 0 HA R C + Bundle.hessPlace (A.dof + B.dof) A.dof HB R C := by
+    intro HA HB
+    rw [hessPlace_eq', hessPlace_eq']
+    by_cases h : R.val < A.dof
+    · rw [if_pos h, if_neg (by omega : ¬ (A.dof ≤ R.val ∧ _)), hz.1]
+    · rw [if_neg h, if_neg (by omega : ¬ (0 ≤ R.val ∧ R.val < 0 + A.dof ∧ _)), hz.2]
   cases inv
   · show Bundle.prodD2rExp A B v R C = _
-    simp [Bundle.prodD2rExp, memoM_eq, Mat.of, selH]
+    simp only [Bundle.prodD2rExp, memoM_eq, Mat.of, selH]
+    exact key _ _
   · show Bundle.prodD2rExpinv A B v R C = _
-    simp [Bundle.prodD2rExpinv, memoM_eq, Mat.of, selH]
+    simp only [Bundle.prodD2rExpinv, memoM_eq, Mat.of, selH]
+    exact key _ _
 
 /-- **the Hessian of a product at the placed indices is the part Hessian** (top-left part at
     `(r, J·D + K)`, `J, K < d_A`; second part at `(d_A + r, (d_A + J)·D + d_A + K)`) -/
@@ -85,7 +97,7 @@ theorem prod_hess_values' (hz : ZeroLaws α) (inv : Bool) (A B : LieModel α) (v
     have e : getN (selH inv (Bundle.prod A B) v) r (J * (A.dof + B.dof) + K)
         = selH inv (Bundle.prod A B) v ⟨r, hr'⟩ ⟨J * (A.dof + B.dof) + K, hc'⟩ := getN_eq' _ _ _ hr' hc'
     rw [e]
-    refine (selH_prod_entry inv A B v ⟨r, hr'⟩ ⟨_, hc'⟩).trans ?_
+    refine (selH_prod_entry hz inv A B v ⟨r, hr'⟩ ⟨_, hc'⟩).trans ?_
     rw [hessPlace_eq', hessPlace_eq']
     simp only [hdiv, hmod]
     rw [if_pos ⟨Nat.zero_le _, by omega, Nat.zero_le _, by omega, Nat.zero_le _, by omega⟩,
@@ -100,7 +112,7 @@ theorem prod_hess_values' (hz : ZeroLaws α) (inv : Bool) (A B : LieModel α) (v
         = selH inv (Bundle.prod A B) v ⟨A.dof + r, hr'⟩ ⟨(A.dof + J) * (A.dof + B.dof) + (A.dof + K), hc'⟩ :=
       getN_eq' _ _ _ hr' hc'
     rw [e]
-    refine (selH_prod_entry inv A B v ⟨A.dof + r, hr'⟩ ⟨_, hc'⟩).trans ?_
+    refine (selH_prod_entry hz inv A B v ⟨A.dof + r, hr'⟩ ⟨_, hc'⟩).trans ?_
     rw [hessPlace_eq', hessPlace_eq']
     simp only [hdiv, hmod]
     rw [if_neg (by omega), if_pos ⟨by omega, by omega, by omega, by omega, by omega, by omega⟩, hz.2]
